@@ -143,6 +143,10 @@ def main(argv=None):
             ok = any(o.status == "refuted" and o.replay and o.replay.get("confirmed") for o in r.obligations)
             if ok:
                 canaries_refuted += 1
+            elif any(o.status not in ("proved", "refuted") for o in r.obligations):
+                # the solver left the deliberately false contract open (budget, load): nothing is known, which is
+                # not the same as the checker accepting it
+                undecided.append((uname, "canary left undecided by the solver"))
             else:
                 crashes.append((uname, "canary was not refuted: the checker would not notice a broken contract; " + repr([(o.name, o.status, (o.replay or {}).get("error"), (o.replay or {}).get("exception"), (o.replay or {}).get("assume_failed"), runner._model_json(o.model)) for o in r.obligations if o.status != "proved"][:3]) + " " + r.reason[-300:]))
             continue
@@ -297,7 +301,7 @@ def main(argv=None):
             v = item[2]
             path = os.path.join(replay_dir, sanitize("bounded_" + v.get("key", "violation")) + ".json")
             with open(path, "w") as f:
-                json.dump({"property": pid, "kind": "bounded", "module": item[1], **v}, f, indent=1, default=str)
+                json.dump({**v, "property": pid, "kind": "bounded", "module": item[1]}, f, indent=1, default=str)
             print("VIOLATION property=%s replay=%s" % (pid, path))
         else:
             mod, uname, o = item
